@@ -411,6 +411,9 @@ class Interp:
             if e.id in st.env:
                 return [(st, st.env[e.id])]
             if e.id in glob:
+                # a module-level constant (a named magic number or option string) denotes its value
+                if isinstance(glob[e.id], (str, int, float, bool, type(None))) and not e.id.startswith("__"):
+                    return [(st, C(glob[e.id]))]
                 return [(st, ("global", e.id))]
             import builtins
             if hasattr(builtins, e.id):
@@ -619,7 +622,17 @@ class Interp:
                         return self.inline_fn(node, {}, args, kw, st, fobj.__globals__, None, depth, name)
                     finally:
                         self.frames.pop()
-        return [self.opaque_call(name, f, args, kw, st)]
+        params = None
+        if isinstance(f, tuple) and f[0] == "global" and kw:
+            import inspect
+            obj = glob.get(f[1])
+            try:
+                tgt = obj.__init__ if inspect.isclass(obj) else obj
+                ps = [p_.name for p_ in inspect.signature(tgt).parameters.values() if p_.kind in (p_.POSITIONAL_ONLY, p_.POSITIONAL_OR_KEYWORD)]
+                params = tuple(ps[1:] if inspect.isclass(obj) else ps)
+            except (TypeError, ValueError, AttributeError):
+                params = None
+        return [self.opaque_call(name, f, args, kw, st, params=params)]
 
     def opaque_call(self, name, f, args, kw, st, params=None):
         args, kw = _positional(name, args, kw, params)
@@ -776,6 +789,18 @@ def _positional(name, args, kw, params=None):
             break
         args.append(kw.pop(hit[0])[1])
     return tuple(args), tuple(kw)
+
+
+def argmap(t, params):
+    """arguments of a call result by parameter name, whether they were passed by position or by keyword (`**mapping` under None)"""
+    out = {}
+    for name, v in zip(params, t[3]):
+        out[name] = v
+    for k, v in t[4]:
+        out[k] = v
+    if len(t[3]) > len(params):
+        out["*extra"] = t[3][len(params):]
+    return out
 
 
 def branches(t):
